@@ -57,7 +57,16 @@ class Rec:
     def __eq__(self, o):
         return isinstance(o, Rec) and self.__dict__ == o.__dict__
 
+    def __reduce__(self):  # picklable also when subclassed locally
+        return (_rebuild_rec, (type(self), self.__dict__))
+
     __hash__ = None
+
+
+def _rebuild_rec(cls, d):
+    r = cls.__new__(cls)
+    r.__dict__.update(d)
+    return r
 
 
 class D(dict):
